@@ -19,3 +19,19 @@ Proof.
   - rewrite in_app_iff. intros [H|H]; [exact (Hn H)|]. apply (Hd a); [left; reflexivity|exact H].
   - apply IH; auto. intros x Hx1 Hx2. apply (Hd x); [right; exact Hx1|exact Hx2].
 Qed.
+
+Lemma nth_error_skipn {A} (d i : nat) (l : list A) : nth_error (skipn d l) i = nth_error l (d + i).
+Proof.
+  revert l; induction d as [|d IH]; intros l; [reflexivity|].
+  destruct l as [|x t]; [destruct i; reflexivity|]. cbn [skipn plus nth_error]. apply IH.
+Qed.
+
+Lemma NoDup_app_remove_l {A} (l1 l2 : list A) : NoDup (l1 ++ l2) -> NoDup l2.
+Proof. induction l1 as [|a t IH]; simpl; [auto|]. intros H. inversion H; auto. Qed.
+
+Lemma NoDup_app_remove_r {A} (l1 l2 : list A) : NoDup (l1 ++ l2) -> NoDup l1.
+Proof.
+  induction l1 as [|a t IH]; simpl; intros H; [constructor|].
+  inversion H as [|? ? Hn Ht]; subst. constructor; [|auto].
+  intros Hin. apply Hn. apply in_or_app. left. exact Hin.
+Qed.
